@@ -58,6 +58,13 @@ type decideRun struct {
 	// calls: invoked for call instructions executed on the path (for effect tracing)
 	onCall func(call ssa.CallInstruction)
 	trace  []ssa.Instruction
+	// allocs (root run only): the objects whose addresses were handed out as "alloc:<ptr>" values
+	allocs map[string]*ssa.Alloc
+	// eventsOnly: the caller wants the executed calls, not the results (DecideCalls)
+	eventsOnly bool
+	// parent / argVals: for a helper run, the run that called it and the caller's value bound to each parameter
+	parent  *decideRun
+	argVals map[ssa.Value]ssa.Value
 	// mem: what the decided path has stored into local variables that live in memory (structs built
 	// field by field, result slots): address key -> value
 	mem map[string]AV
@@ -218,6 +225,28 @@ func (r *decideRun) eval1(v ssa.Value) AV {
 			}
 			return r.fail("- of %s", a)
 		}
+		// a pointer the oracle named ("ptr:v0"): what it points to is the symbol of that name
+		if x.Op == token.MUL {
+			saved := r.err
+			a := r.eval(x.X)
+			r.err = saved
+			if a.Kind == "nonnil" && strings.HasPrefix(a.Sym, "ptr:") {
+				return AV{Kind: "sym", Sym: strings.TrimPrefix(a.Sym, "ptr:")}
+			}
+		}
+		// inside a helper: a field of an object the caller handed in (node.op read by a helper method): the
+		// rule may know it by the caller's name for that object
+		if x.Op == token.MUL && decideFieldHook != nil {
+			if fa, isFA := x.X.(*ssa.FieldAddr); isFA {
+				if origin := r.originOf(fa.X); origin != nil {
+					if f, _ := fieldOfAddr(fa); f != nil {
+						if a, ok := decideFieldHook(origin, f); ok {
+							return a
+						}
+					}
+				}
+			}
+		}
 		return r.fail("load/unop %s not covered by the oracle (%s)", x.Name(), x.String())
 	case *ssa.BinOp:
 		a, b := r.eval(x.X), r.eval(x.Y)
@@ -268,6 +297,14 @@ func (r *decideRun) eval1(v ssa.Value) AV {
 		}
 		return r.fail("extract from %s", t)
 	case *ssa.Call:
+		if bi, isBuiltin := x.Call.Value.(*ssa.Builtin); isBuiltin {
+			if (bi.Name() == "len" || bi.Name() == "cap") && len(x.Call.Args) == 1 {
+				if n, ok := staticLen(x.Call.Args[0], 0); ok {
+					return avInt(n)
+				}
+			}
+			return r.fail("builtin %s not covered by the oracle", bi.Name())
+		}
 		// a small helper of the repository: decide it in place with the actual arguments
 		sc := x.Call.StaticCallee()
 		if sc == nil && !x.Call.IsInvoke() {
@@ -313,7 +350,13 @@ func (r *decideRun) eval1(v ssa.Value) AV {
 				args[prm] = a
 			}
 		}
-		sub := &decideRun{fn: sc, depth: r.depth + 1, memo: map[ssa.Value]AV{}, oracle: func(v ssa.Value) (AV, bool) {
+		argVals := map[ssa.Value]ssa.Value{}
+		for i, prm := range sc.Params {
+			if i < len(x.Call.Args) {
+				argVals[prm] = x.Call.Args[i]
+			}
+		}
+		sub := &decideRun{fn: sc, depth: r.depth + 1, memo: map[ssa.Value]AV{}, parent: r, argVals: argVals, oracle: func(v ssa.Value) (AV, bool) {
 			if a, ok := args[v]; ok {
 				return a, true
 			}
@@ -324,6 +367,15 @@ func (r *decideRun) eval1(v ssa.Value) AV {
 			return AV{}, false
 		}}
 		res, err := sub.run()
+		// what the helper stored into objects it allocated (and returns) stays readable by the caller
+		for k, v := range sub.mem {
+			if r.mem == nil {
+				r.mem = map[string]AV{}
+			}
+			if _, have := r.mem[k]; !have {
+				r.mem[k] = v
+			}
+		}
 		if err != "" {
 			return r.fail("helper %s: %s", sc.Name(), err)
 		}
@@ -357,6 +409,14 @@ func (r *decideRun) eval1(v ssa.Value) AV {
 		return r.fail("field %d of %s", x.Field, a)
 	case *ssa.Alloc:
 		// the address of a local / freshly allocated object: never nil
+		root := r
+		for root.parent != nil {
+			root = root.parent
+		}
+		if root.allocs == nil {
+			root.allocs = map[string]*ssa.Alloc{}
+		}
+		root.allocs[fmt.Sprintf("alloc:%p", x)] = x
 		return AV{Kind: "nonnil", Sym: fmt.Sprintf("alloc:%p", x)}
 	case *ssa.Function:
 		return AV{Kind: "func", Fn: x}
@@ -540,7 +600,9 @@ func (r *decideRun) run() ([]AV, string) {
 		// evaluate phis eagerly so later reads are memoised
 		for _, in := range r.cur.Instrs {
 			if phi, ok := in.(*ssa.Phi); ok {
-				r.eval(phi)
+				saved := r.err
+				r.eval(phi) // a value nobody branches on may stay unknown
+				r.err = saved
 			}
 		}
 		// memory of local variables, in execution order
@@ -576,15 +638,18 @@ func (r *decideRun) run() ([]AV, string) {
 		last := r.cur.Instrs[len(r.cur.Instrs)-1]
 		switch x := last.(type) {
 		case *ssa.Return:
+			// failures are local to the question asked: what was not needed to get here does not matter
+			r.err = ""
 			out := make([]AV, len(x.Results))
 			for i, v := range x.Results {
 				out[i] = r.eval(v)
 			}
-			if r.err != "" {
+			if r.err != "" && !r.eventsOnly {
 				return nil, r.err
 			}
 			return out, ""
 		case *ssa.If:
+			r.err = ""
 			c := r.eval(x.Cond)
 			if c.Kind != "const" || c.C.Kind() != constant.Bool {
 				if r.err == "" {
@@ -621,12 +686,16 @@ func DecideTrace(fn *ssa.Function, oracle Oracle) (res []AV, trace []ssa.Instruc
 type CallEvent struct {
 	Call ssa.CallInstruction
 	Args []AV
+	// for arguments that are addresses of objects built on the path: the allocated type and the fields as
+	// stored at the moment of the call (".f0", ".f1", ...), indexed like Args
+	ArgTypes  []types.Type
+	ArgFields []map[string]AV
 }
 
 // DecideCalls runs fn like Decide and reports, in execution order, the calls selected by want.
 func DecideCalls(fn *ssa.Function, oracle Oracle, want func(ssa.CallInstruction) bool) ([]CallEvent, string) {
 	var evs []CallEvent
-	r := &decideRun{fn: fn, oracle: oracle, memo: map[ssa.Value]AV{}}
+	r := &decideRun{fn: fn, oracle: oracle, memo: map[ssa.Value]AV{}, eventsOnly: true}
 	r.onCall = func(ci ssa.CallInstruction) {
 		if !want(ci) {
 			return
@@ -634,7 +703,23 @@ func DecideCalls(fn *ssa.Function, oracle Oracle, want func(ssa.CallInstruction)
 		ev := CallEvent{Call: ci}
 		saved := r.err
 		for _, a := range ci.Common().Args {
-			ev.Args = append(ev.Args, r.eval(a))
+			av := r.eval(a)
+			ev.Args = append(ev.Args, av)
+			var t types.Type
+			flds := map[string]AV{}
+			if strings.HasPrefix(av.Sym, "alloc:") {
+				if al := r.allocs[av.Sym]; al != nil {
+					t = derefType(al.Type())
+				}
+				key := "a" + strings.TrimPrefix(av.Sym, "alloc:")
+				for k, v := range r.mem {
+					if strings.HasPrefix(k, key+".f") {
+						flds[strings.TrimPrefix(k, key)] = v
+					}
+				}
+			}
+			ev.ArgTypes = append(ev.ArgTypes, t)
+			ev.ArgFields = append(ev.ArgFields, flds)
 		}
 		r.err = saved
 		evs = append(evs, ev)
@@ -739,3 +824,90 @@ var decideSymCompare func(a, b AV, op token.Token) (bool, bool)
 // decideSymCall, when set by a rule, answers calls of external functions whose arguments are symbolic
 // operands (the same question the rule's oracle answers when the call is written in the function itself).
 var decideSymCall func(callee *types.Func, args []AV) (AV, bool)
+
+// decideFieldHook, when set by a rule, answers "field f of the object the top-level function knows as
+// origin" for loads that happen inside helper runs (where the object is a parameter).
+var decideFieldHook func(origin ssa.Value, f *types.Var) (AV, bool)
+
+// originOf: the top-level function's value that v (a parameter of a helper run) stands for.
+func (r *decideRun) originOf(v ssa.Value) ssa.Value {
+	if r.parent == nil {
+		return nil
+	}
+	cv, ok := r.argVals[v]
+	if !ok {
+		return nil
+	}
+	if r.parent.parent == nil {
+		return cv
+	}
+	if o := r.parent.originOf(cv); o != nil {
+		return o
+	}
+	return nil
+}
+
+// staticLen: the length of a slice/array value when it is fixed by construction (a slice of a local array,
+// an array, a composite literal handed through phis of identical length).
+func staticLen(v ssa.Value, depth int) (int64, bool) {
+	if depth > 4 {
+		return 0, false
+	}
+	switch x := v.(type) {
+	case *ssa.Slice:
+		if x.Low != nil || x.High != nil || x.Max != nil {
+			return 0, false
+		}
+		if arr, ok := derefType(x.X.Type()).Underlying().(*types.Array); ok {
+			return arr.Len(), true
+		}
+		return staticLen(x.X, depth+1)
+	case *ssa.Const:
+		if x.IsNil() {
+			return 0, true
+		}
+	case *ssa.Phi:
+		var n int64 = -1
+		for _, e := range x.Edges {
+			m, ok := staticLen(e, depth+1)
+			if !ok || (n >= 0 && m != n) {
+				return 0, false
+			}
+			n = m
+		}
+		return n, n >= 0
+	case *ssa.ChangeType:
+		return staticLen(x.X, depth+1)
+	}
+	if arr, ok := v.Type().Underlying().(*types.Array); ok {
+		return arr.Len(), true
+	}
+	return 0, false
+}
+
+// DecideObjects runs fn like Decide and additionally gives access to the objects built on the decided path:
+// typeOf(av) is the allocated type behind an "alloc:" value, fieldsOf(av) its fields as last stored (".f0", ...).
+func DecideObjects(fn *ssa.Function, oracle Oracle) (res []AV, typeOf func(AV) types.Type, fieldsOf func(AV) map[string]AV, err string) {
+	r := &decideRun{fn: fn, oracle: oracle, memo: map[ssa.Value]AV{}}
+	res, err = r.run()
+	typeOf = func(a AV) types.Type {
+		if al := r.allocs[a.Sym]; al != nil {
+			return derefType(al.Type())
+		}
+		return nil
+	}
+	fieldsOf = func(a AV) map[string]AV {
+		out := map[string]AV{}
+		if !strings.HasPrefix(a.Sym, "alloc:") {
+			return out
+		}
+		key := "a" + strings.TrimPrefix(a.Sym, "alloc:")
+		for k, v := range r.mem {
+			if strings.HasPrefix(k, key+".f") {
+				out[strings.TrimPrefix(k, key)] = v
+			}
+		}
+		return out
+	}
+	return
+}
